@@ -459,9 +459,11 @@ func check(id, tier string) int {
 	}
 	det := determinism(bin, dir, id, tier, seed, knownPath, detRuns)
 	if !det.ok {
+		// Not a verdict by itself.  If the code under test has become
+		// nondeterministic (say it now uses a sync.Pool) the runs below may
+		// still expose a violation that replays; only if they find nothing is
+		// the outcome "no verdict" (exit 2).
 		fmt.Fprintf(os.Stderr, "verif: determinism self-test failed: %s\n", det.note)
-		os.RemoveAll(dir)
-		os.Exit(2)
 	}
 
 	total := p.QuickRuns
@@ -533,7 +535,7 @@ func check(id, tier string) int {
 		os.WriteFile(violationPath, b, 0o644)
 		exit = 1
 	} else if agg.violation != nil {
-		path, ok := minimiseAndConfirm(bin, dir, agg.violation, knownPath, p.NoMinimise)
+		path, ok := minimiseAndConfirm(bin, dir, agg.violation, knownPath, p.NoMinimise, workerEnv)
 		if !ok {
 			os.RemoveAll(dir)
 			fmt.Fprintf(os.Stderr, "verif: violation %s in run %d did not reproduce from its tape in a fresh process: harness determinism bug, no verdict\n", agg.violation.Signature, agg.violation.Run)
@@ -543,6 +545,11 @@ func check(id, tier string) int {
 		exit = 1
 	}
 
+	if !det.ok && exit == 0 {
+		os.RemoveAll(dir)
+		fmt.Fprintln(os.Stderr, "verif: the same runs produced different event logs in two processes and no replayable violation was found: no verdict")
+		os.Exit(2)
+	}
 	wall := time.Since(startT).Seconds()
 	writeEvidence(id, tier, seed, p, &agg, det, wall, exit, extraNotes, kf)
 
@@ -645,7 +652,7 @@ func hangViolation(bin, dir, id, tier string, seed uint64, run int, knownPath st
 
 // minimiseAndConfirm shrinks the tape, stores the replay file under
 // /verif/replays and replays it in a fresh process.
-func minimiseAndConfirm(bin, dir string, v *replayFile, knownPath string, noMin bool) (string, bool) {
+func minimiseAndConfirm(bin, dir string, v *replayFile, knownPath string, noMin bool, env []string) (string, bool) {
 	os.MkdirAll(filepath.Join(verifDir, "replays"), 0o755)
 	final := filepath.Join(verifDir, "replays", fmt.Sprintf("%s-%d-%d.json", v.Property, v.Seed, v.Run))
 	raw := filepath.Join(dir, "violation-raw.json")
@@ -659,7 +666,7 @@ func minimiseAndConfirm(bin, dir string, v *replayFile, knownPath string, noMin 
 	minOK := false
 	if !noMin {
 		cmd := exec.Command(bin, "minimise", "-file", raw, "-out", final, "-known", knownPath)
-		cmd.Env = os.Environ()
+		cmd.Env = append(os.Environ(), env...)
 		if out, err := cmd.CombinedOutput(); err == nil {
 			minOK = true
 		} else {
@@ -670,6 +677,7 @@ func minimiseAndConfirm(bin, dir string, v *replayFile, knownPath string, noMin 
 		os.WriteFile(final, b, 0o644)
 	}
 	cmd := exec.Command(bin, "replay", "-file", final, "-known", knownPath)
+	cmd.Env = append(os.Environ(), env...)
 	out, err := cmd.CombinedOutput()
 	var ee *exec.ExitError
 	if errors.As(err, &ee) && ee.ExitCode() == 1 && strings.Contains(string(out), "REPRODUCED") {
@@ -712,6 +720,9 @@ func replay(path string) int {
 	knownPath := filepath.Join(dir, "known.json")
 	os.WriteFile(knownPath, []byte("[]"), 0o644)
 	cmd := exec.Command(bin, "replay", "-file", path, "-known", knownPath)
+	if p.Instrumented {
+		cmd.Env = append(os.Environ(), "GOMAXPROCS=1") // as in the run that found it
+	}
 	cmd.Stdout = os.Stdout
 	cmd.Stderr = os.Stderr
 	err = cmd.Run()
